@@ -2,8 +2,9 @@
 From VLib Require Import CaseLib.
 From C07 Require Import Model.
 
-(* the code as it is now: the three defects reported by the replay are present *)
-Definition cur_ver : version := mkVer false false false.
+(* the code as it is now: all-token queued last (a28a3f7) and fetch guard (5d51c58) are in; a suicided proxyFrac still
+   dereferences nil in Info (reported, fingerprint suicided-proxy-nil-deref) *)
+Definition cur_ver : version := mkVer true true false.
 Definition nreaders : nat := 3.
 
 Inductive case :=
